@@ -8,6 +8,7 @@ import Proofs.C01
 import Proofs.Lemmas.InprocAll
 import Proofs.Lemmas.InprocUnaryAll
 import Proofs.Lemmas.HttpUnary
+import Proofs.Lemmas.HttpServerStream
 
 namespace InprocStream
 
@@ -206,3 +207,55 @@ theorem C04_http_unary_cancel_is_status (r : Reply) (at_ : CancelAt) (reason : R
 theorem C04_http_unary_body_error_fact : Gen.unaryBodyErrTranslated = true := by decide
 
 end HttpUnary
+
+namespace HttpServerStream
+open InprocStream (HErr Reason Res codeOf)
+
+/-- on a single-request method, once a message has been handed to the handler nothing of the request is left unread -/
+def ReadToEnd (s : St) : Prop := s.clientStreams = false → s.received ≠ [] → s.req = []
+
+theorem readToEnd_step (s : St) (a : Act) (s' : St) (r : Res) (hP : ReadToEnd s) (hcs : s.clientStreams = false)
+    (hst : step s a = some (s', r)) : ReadToEnd s' ∧ s'.clientStreams = false := by
+  unfold ReadToEnd at *
+  unfold step at hst
+  split at hst
+  · cases a <;> simp [stepFinished] at hst
+    obtain ⟨rfl, rfl⟩ := hst
+    exact ⟨by simpa using hP, hcs⟩
+  · cases a <;> simp only [stepLive] at hst <;> (repeat' split at hst) <;> simp at hst <;>
+      (try (obtain ⟨rfl, rfl⟩ := hst)) <;> simp_all
+
+theorem readToEnd_run (acts : List Act) : ∀ (s s' : St) (rs : List Res), ReadToEnd s → s.clientStreams = false →
+    run s acts = some (s', rs) → ReadToEnd s' ∧ s'.clientStreams = false := by
+  induction acts with
+  | nil => intro s s' rs hP hcs h; simp [run] at h; obtain ⟨rfl, rfl⟩ := h; exact ⟨hP, hcs⟩
+  | cons a acts ih =>
+    intro s s' rs hP hcs h
+    obtain ⟨s1, r, rs', hs, hr, rfl⟩ := run_cons h
+    obtain ⟨hP1, hcs1⟩ := readToEnd_step s a s1 r hP hcs hs
+    exact ih s1 s' rs' hP1 hcs1 hr
+
+/-- **The library itself reads a single-request body to its end** (HTTP server, methods that take one request
+    message): for every request body and every handler behaviour, as soon as the handler has been given its
+    message the whole request has been consumed. This is what lets net/http watch the connection from then on
+    and cancel the handler's context when the caller goes away (the runtime part, checked on a loopback
+    connection by the harness); a handler of such a method never has to drain anything itself.
+    (For client-streaming methods no such statement holds — known finding C04-F7.) -/
+theorem C04_http_server_single_request_read_to_end (req : List ReqItem) (acts : List Act) (s : St) (rs : List Res)
+    (h : run (init false req) acts = some (s, rs)) (hm : msgsOf rs ≠ []) : s.req = [] := by
+  obtain ⟨hP, hcs⟩ := readToEnd_run acts (init false req) s rs (by simp [ReadToEnd, init]) (by simp [init]) h
+  obtain ⟨_, _, _, hrec⟩ := run_facts req acts (init false req) s rs (inv_init false req) h
+  simp only [init, List.nil_append] at hrec
+  exact hP hcs (by rw [hrec]; exact hm)
+
+/-- with several request messages allowed the request may well be unread while the handler holds a message
+    (witness for C04-F7: one message taken, one still in the body) -/
+theorem C04_http_server_client_stream_may_leave_request_unread :
+    ∃ s rs, run (init true [.data 1 true, .data 2 true]) [.recv] = some (s, rs) ∧ msgsOf rs = [1] ∧ s.req ≠ [] := by
+  refine ⟨_, _, rfl, by decide, by decide⟩
+
+/-- non-vacuity: a one-frame body, one RecvMsg -/
+example : ∃ s rs, run (init false [.data 7 true]) [.recv] = some (s, rs) ∧ msgsOf rs = [7] ∧ s.req = [] :=
+  ⟨_, _, rfl, by decide, by decide⟩
+
+end HttpServerStream
